@@ -219,6 +219,9 @@ pub fn run_history_with(h: &History, checks: Checks, stop_at_first: bool, source
         if std::env::var("VERIF_TRACE").is_ok() {
             eprintln!("TRACE step {si} {step:?} -> {:?}", out.as_ref().map(|o| &o.value));
             eprintln!("TRACE   diff post vs pre: {}", post.diff(&pre));
+            if std::env::var("VERIF_TRACE").as_deref() == Ok("2") {
+                eprintln!("TRACE   post state: {}", serde_json::to_string(&post).unwrap());
+            }
             if let Some(rp) = &real_pre {
                 let rq = real_partitions(&map, &post);
                 eprintln!("TRACE   real vertex ids pre : {:?}", rp[0]);
